@@ -77,6 +77,10 @@ def norm_crystal(c):
         "positions": _arr(au.positions),
         "labels": [str(x) for x in au.labels],
         "occupation": occupation_of(au),
+        "elements": [int(e.atomic_number) for e in au.elements],
+        "name": str(c.titl),
+        "inverse": _arr(uc.inverse),
+        "lengths_angles": [_arr(np.asarray(uc.lengths, dtype=float)), _arr(np.asarray(uc.angles, dtype=float))],
     }
 
 
@@ -88,6 +92,7 @@ def norm_molecule(m):
         "positions": _arr(m.positions),
         "labels": [str(x) for x in m.labels],
         "props": props,
+        "elements": [int(e.atomic_number) for e in m.elements],
         "charge": norm(getattr(m, "charge", None)),
         "multiplicity": norm(getattr(m, "multiplicity", None)),
     }
